@@ -333,8 +333,8 @@ theorem writtenP_finish {cfg : Cfg} {s : State} (hs : SInv cfg s) {i : Nat} {p :
     have h1 := writtenP_set (s := s) (s' := { s with tasks := s.tasks.set i (.done true) })
       (x := .done true) hi rfl (by rw [hw]; rfl) k
     have h2 := writtenP_set (s := { s with tasks := s.tasks.set i (.done true) })
-      (s' := { s with tasks := (s.tasks.set i (.done true)).set (i + 1) .cbAcq })
-      (i := i + 1) (p := .notStarted) (x := .cbAcq)
+      (s' := { s with tasks := (s.tasks.set i (.done true)).set (i + 1) .tAcq })
+      (i := i + 1) (p := .notStarted) (x := .tAcq)
       (by simp only [List.getElem?_set]; simp; exact hnext) rfl rfl k
     exact h2.trans h1
   · exact writtenP_set (s := s) (x := .done ok) hi rfl (by rw [hw]; cases ok <;> rfl) k
@@ -377,8 +377,8 @@ theorem FInv_step {cfg : Cfg} (wf : WF cfg) (lay : Layout cfg) {s s' : State} {l
   | cbAcq i hi hl => exact frame rfl (writtenP_set hi rfl rfl)
   | cbFail i hi hf =>
       refine frame (by simp) (fun k => ?_)
-      exact writtenP_finish (s := { s with log := s.log ++ [i], cbLock := false })
-        (SInv_congr hs rfl rfl rfl rfl rfl) false hi rfl rfl k
+      exact writtenP_finish (s := { s with log := s.log ++ [i], cbLock := false, tLocks := s.tLocks.set (cfg.obj i) false })
+        (SInv_congr hs rfl rfl (by simp) rfl rfl) false hi rfl rfl k
   | cbOk i hi hf => exact frame rfl (writtenP_set hi rfl rfl)
   | tAcq i hi hl => exact frame rfl (writtenP_set hi rfl rfl)
   | bTry i p hi hp' =>
